@@ -167,6 +167,8 @@ def finish(prop, P, tier, seed, t0, results, fatal, touched, findings):
         if r["backend"] == "native":
             seen = set()
             for f in r["failures"]:
+                if f["clause"] == "panic-free":
+                    f["clause"] = r["clause"] + ".panic-free"
                 key = f["clause"]
                 if key in seen:
                     continue
@@ -193,7 +195,7 @@ def finish(prop, P, tier, seed, t0, results, fatal, touched, findings):
                 items.append({"clause": f["clause"], "input": None, "detail": f["detail"]})
         for it in items:
             kf = finding_for(findings, prop, it["clause"], it["input"])
-            rp = os.path.join(REPLAY_DIR, f"{prop}-{it['clause'].replace('/', '_')}.json")
+            rp = os.path.join(REPLAY_DIR, f"{prop}-{r['obligation']}-{it['clause'].replace('/', '_')}.json")
             write_json(rp, {"property": prop, "obligation": r["obligation"], "clause": it["clause"],
                             "backend": r["backend"], "input": it["input"], "detail": it["detail"],
                             "case": it.get("case"), "test": r.get("test"), "pkg": r.get("pkg"),
